@@ -145,7 +145,7 @@ func init() {
 	register(&Def{
 		ID:        "C13",
 		Technique: "byte provenance of every write in the encoders and of every raw field of library-built messages, error-propagation rule at json.Marshal/encoder call sites, version-literal table, index provenance in ParseRequests",
-		Explanation: "Decides: (D1) every emitted literal that names the version member carries the Version constant the parser compares against; (D2) every byte the encoders write is a constant, a json.Marshal/element-encoder result on its err == nil edge, or a raw ID/P/R field, and an encoding error inside an encoder is returned at once; (D3) raw ID/P/R fields of messages the library builds come only from json.Marshal, strconv.FormatInt, null/nil, or raw fields holding JSON by the same rule (the peer's own tokens); (D4) no json.Marshal/encoder result is used with its error discarded; (D5) ParseRequests uses the server's list parser, reports a top-level error only from it, builds entry i from member i with the member's deferred error, and ToRequest refuses entries with an error.",
+		Explanation: "Decides: (D1) every emitted literal that names the version member carries the Version constant the parser compares against; (D2) every byte the encoders write is a constant, a json.Marshal/element-encoder result on its err == nil edge, or a raw ID/P/R field, and an encoding error inside an encoder is returned at once; (D3) raw ID/P/R fields of messages the library builds come only from json.Marshal, strconv.FormatInt, null/nil, or raw fields holding JSON by the same rule (the peer's own tokens); (D4) no json.Marshal/encoder result is used with its error discarded; (D5) ParseRequests uses the server's list parser, reports a top-level error only from it, builds entry i from member i with the member's deferred error, and ToRequest refuses entries with an error. (D6) the bytes json.Marshal produced are never written through (no element store, copy-into, or append onto a shortened re-slice).",
 		NotDecided: []string{"parse-back equality and UTF-8/control-byte freedom for every value (encoding/json's contract)", "totality of the parser"},
 		Assumptions: []string{"json.Marshal output is compact single-line valid JSON", "A-data"},
 		RuleText:    ruleText,
@@ -175,7 +175,7 @@ func init() {
 	register(&Def{
 		ID:        "C14",
 		Technique: "effect (alias/taint) analysis of WithData, identity-accessor rule, decision-list extraction of ErrorCode, provenance of the response's error member and of the client's settled fields, constant tables of filterError vs ErrorCode",
-		Explanation: "Decides: (D1) WithData performs no store, append, copy or map update that reaches memory owned by its receiver; (D2) every ErrCode method returns its receiver's code unchanged and Code.Err returns nil exactly for NoError, else the code itself; (D3) ErrorCode's decision list is nil → NoError, ErrCoder → its code, Canceled → Cancelled, DeadlineExceeded → DeadlineExceeded, else SystemError, in that order; (D4) the response builder forwards an *Error by identity (type assertion on task.err, no unwrapping) and maps any other error to Code = ErrorCode(task.err) (InternalError only on the NoError edge), Message = task.err.Error(); (D5) a Response settles with exactly the received message's error and result, Call/Callback return it through filterError, and filterError inverts ErrorCode on the two context sentinels; (D6) the invoke function returns json.Marshal's pair unmodified.",
+		Explanation: "Decides: (D1) WithData performs no store, append, copy or map update that reaches memory owned by its receiver; (D2) every ErrCode method returns its receiver's code unchanged and Code.Err returns nil exactly for NoError, else the code itself; (D3) ErrorCode's decision list is nil → NoError, ErrCoder → its code, Canceled → Cancelled, DeadlineExceeded → DeadlineExceeded, else SystemError, in that order; (D4) the response builder forwards an *Error by identity (type assertion on task.err, no unwrapping) and maps any other error to Code = ErrorCode(task.err) (InternalError only on the NoError edge), Message = task.err.Error(); (D5) a Response settles with exactly the received message's error and result, Call/Callback return it through filterError, and filterError inverts ErrorCode on the two context sentinels; (D6) the invoke function returns json.Marshal's pair unmodified. (D7) when marshalling a callback result fails, the reply gets an error member on every path.",
 		NotDecided: []string{"JSON-equality of data across the wire", "behaviour of arbitrary user ErrCoder / Unwrap chains beyond errors.As/Is"},
 		Assumptions: []string{"errors.As / errors.Is semantics"},
 		RuleText:    ruleText,
